@@ -103,6 +103,10 @@ fn gen(seed: u64, idx: u64, _tier: Tier) -> Plan {
     for _round in 0..3 {
         for k in 0..(workers as u64 * 4) {
             plan.step(t + k * *rng.pick(&[0u64, 1, 7]), Action::Send { sock: rng.below(64) as u32, req: valid_spec(&mut rng, &mut ctr) });
+            if rng.chance(1, 8) {
+                // what else arrives on a public port: something that is no request
+                plan.step(t + k, Action::Send { sock: rng.below(64) as u32, req: storm_spec(&mut rng, &mut ctr) });
+            }
         }
         if rng.chance(1, 4) {
             // every worker finds a completely full batch (or one more than that) waiting: the
